@@ -5,6 +5,7 @@ import Swim.Drv.Merge
 import Swim.Drv.Codec
 import Swim.Drv.Ingest
 import Swim.Drv.C06
+import Swim.Drv.C09
 /-! Line-protocol driver: `<PROP> <kind> k=v ...` in, `<PROP> <id> <agree|DISAGREE> <ok|BAD:..> ...` out. -/
 open Swim.Parse
 
@@ -16,6 +17,7 @@ def dispatch (line : String) : String :=
     let id := getD fs "id" "?"
     let body := match prop with
       | "C17" => Swim.Drv.C17.handle kind fs
+      | "C09" => Swim.Drv.C09.handle kind fs
       | "C10" => Swim.Drv.C10.handle kind fs
       | "C11" => Swim.Drv.Codec.handleC11 kind fs
       | "C12" => Swim.Drv.Codec.handleC12 kind fs
